@@ -48,12 +48,31 @@ DESCRIPTION = {
         "deterministic in (script, metadata): the fault dimension is small - the hash seed, and in 30% of the runs an earlier analysis on the same provider object that was aborted by a bad statement after registering tables; provider stalls/failures and thread interleavings are decided under C12",
     ],
     "required_probes": {
-        "quick": ["chain_consumed", "wildcard_from_session", "unqualified_resolved_by_session", "end_at_intermediate", "session_lookup_hit", "paths_compared", "after_aborted_run", "recreated_by_ctas_or_view", "self_rewrite_paths_checked", "known_table_written_again", "scalar_subquery_between_definition_and_wildcard_reader"],
+        "quick": ["chain_consumed", "wildcard_from_session", "unqualified_resolved_by_session", "end_at_intermediate", "session_lookup_hit", "paths_compared", "after_aborted_run", "recreated_by_ctas_or_view", "self_rewrite_paths_checked", "known_table_written_again", "scalar_subquery_between_definition_and_wildcard_reader", "nondefining_write_keeps_columns"],
         "thorough": ["chain_consumed", "wildcard_from_session", "unqualified_resolved_by_session", "end_at_intermediate", "session_lookup_hit", "paths_compared"],
     },
 }
 
 CREATING = ("ctas", "insert", "view", "insert_cols")
+
+
+def _write_site(stmt: str):
+    """Kind of a statement that writes a table without defining it (from the statement text only)."""
+    head = stmt.lstrip().upper()
+    if head.startswith("UPDATE"):
+        return "update"
+    if head.startswith("MERGE"):
+        return "merge"
+    if head.startswith("INSERT"):
+        return "insert"
+    return None
+
+
+def _known_narrowing_site(site: str, dialect: str) -> bool:
+    # open known finding (reproduced on the unchanged tree, see known_findings.json): UPDATE ... FROM and MERGE under
+    # every parser, INSERT into a session-known table under the legacy parser only (the sqlfluff INSERT path keeps the
+    # known columns and is judged)
+    return site in ("update", "merge") or dialect == "non-validating"
 
 
 def _make_provider(ps):
@@ -259,6 +278,24 @@ def run_one(spec: dict) -> dict:
                 if r[2] == ko and list(r[3]) != list(model[ko]):
                     viol = viol or {"class": "session_column_order_changed", "message": f"statement {i} `{script[i]}` writes into {ko}, whose columns the session knew as {model[ko]}; "
                                     f"afterwards it registered {r[3]} (script {script})"}
+        # a statement that does not (re-)define its target - UPDATE, MERGE, INSERT into a table the session already knows -
+        # cannot take columns away from it: what the session knew about the table before must still be known afterwards
+        # (otherwise a later SELECT * stops short of columns the table still has). Judged with a provider in use (only
+        # then is the session consulted). Sites where the unchanged tree does narrow are an open known finding
+        # (known_findings.json: C04-nondefining-write-narrows-session-*): there the pinned inputs are judged and
+        # generated scripts only counted; every other site is judged on every script.
+        site = _write_site(script[i])
+        for r in regs:
+            if in_use and site is not None and r[2] in model and not set(model[r[2]]) <= set(r[3]):
+                probe("nondefining_write_narrows")
+                if _known_narrowing_site(site, spec["dialect"]) and not spec.get("pinned"):
+                    probe("known_finding_zone_nondefining_write_narrows")
+                else:
+                    viol = viol or {"class": "session_columns_narrowed", "site": site,
+                                    "message": f"statement {i} `{script[i]}` ({site}, {spec['dialect']}) does not define {r[2]}, whose columns the session knew as {model[r[2]]}; "
+                                               f"afterwards the session holds only {r[3]} (script {script})"}
+            elif in_use and site is not None and r[2] in model:
+                probe("nondefining_write_keeps_columns")
         for r in regs:
             model[r[2]] = list(r[3])
         session_states.append(sorted(model.items()))
@@ -576,6 +613,42 @@ def gen_scalar_subquery(g, seed, ps, dialect) -> dict:
             "provider": ps, "dialect": dialect, "shape": "scalar_subquery", "trailing_semicolon": g.random() < 0.5}
 
 
+def gen_touch(g, seed, ps, dialect) -> dict:
+    """A table created by the script, then written by a statement that does not define it and touches only some of
+    its columns (UPDATE with and without FROM, MERGE, INSERT with a partial / permuted / no column list, VALUES), then read
+    through SELECT * - alone or joined. What the session knows about the table must survive the write in between."""
+    tag = f"k{seed % 1000}"
+    b1, b2 = g.sample(sorted(BASE_META), 2)
+    T, W = g.sample(UNIVERSE, 2)
+    n = g.choice([2, 3])
+    cols = [f"c_{tag}_w{i}" for i in range(n)]
+    xs = [g.choice(BASE_META[b1]) for _ in range(n)]
+    s1 = g.choice(["CREATE TABLE", "CREATE TABLE", "CREATE VIEW"]) + f" {T} AS SELECT " + ", ".join(f"{x} AS {c}" for x, c in zip(xs, cols)) + f" FROM {b1}"
+    u, u2 = g.choice(BASE_META[b2]), g.choice(BASE_META[b2])
+    c, c2 = g.sample(cols, 2)
+    mids = [
+        f"UPDATE {T} SET {c} = 1",
+        f"UPDATE {T} SET {c} = (SELECT max({u}) FROM {b2})",
+        f"INSERT INTO {T} VALUES (" + ", ".join("1" for _ in cols) + ")",
+        f"INSERT INTO {T} ({c}) SELECT {u} FROM {b2}",
+        f"INSERT INTO {T} ({c}, {c2}) SELECT {u}, {u2} FROM {b2}",
+        f"INSERT INTO {T} SELECT " + ", ".join(g.choice(BASE_META[b2]) for _ in cols) + f" FROM {b2}",
+        f"INSERT INTO {T} SELECT {u} FROM {b2}",
+        f"MERGE INTO {T} tg USING {b2} sr ON tg.{c2} = sr.{u2} WHEN MATCHED THEN UPDATE SET {c} = sr.{u}",
+        f"MERGE INTO {T} tg USING {b2} sr ON tg.{c2} = sr.{u2} WHEN NOT MATCHED THEN INSERT ({c}) VALUES (sr.{u})",
+    ]
+    if dialect in ("ansi", "postgres", "tsql", "snowflake", "bigquery"):
+        mids += [f"UPDATE {T} SET {c} = r.{u} FROM {b2} r", f"UPDATE {T} SET {c} = r.{u} FROM {b2} r WHERE {T}.{c2} = r.{u2}"]
+    mid = g.choice(mids)
+    s3 = g.choice([f"INSERT INTO {W} SELECT * FROM {T}", f"CREATE TABLE {W} AS SELECT * FROM {T}", f"INSERT INTO {W} SELECT l.*, r.{u} AS c_{tag}_z FROM {T} l JOIN {b2} r ON 1 = 1"])
+    other = {"kind": "other", "target": None, "out": None, "srcs": [], "star": False, "wild": False}
+    k3 = "insert" if s3.startswith("INSERT") else "ctas"
+    a1 = {"kind": "view" if "VIEW" in s1 else "ctas", "target": T, "out": list(cols), "srcs": [b1], "star": False, "wild": False}
+    a3 = {"kind": k3, "target": W, "out": None, "srcs": [T] + ([b2] if "JOIN" in s3 else []), "star": "JOIN" not in s3, "wild": True}
+    return {"seed": seed, "script": [s1, mid, s3], "annot": [a1, dict(other), a3], "provider": ps, "dialect": dialect, "shape": "touch",
+            "trailing_semicolon": g.random() < 0.5}
+
+
 def gen(seed) -> dict:
     g = stream(seed, "gen")
     r = g.random()
@@ -595,6 +668,9 @@ def gen(seed) -> dict:
         return gen_selfrewrite(g, seed, ps, dialect)
     if ps is not None and g.random() < 0.07:
         return gen_scalar_subquery(g, seed, ps, dialect)
+    gt = stream(seed, "gen-touch")
+    if ps is not None and ps["meta"] and gt.random() < 0.08:
+        return gen_touch(gt, seed, ps, gt.choice(["ansi", "ansi", "non-validating", "postgres", "mysql", "tsql", "sparksql", "bigquery", "snowflake"]))
     sg = ScriptGen(g, f"k{seed % 1000}", known=base, allow_drop_rename=False, allow_cte=g.random() < 0.5)
     sg.strict_subquery_cols = True
     sg.shadow_targets = sorted(base)
